@@ -112,7 +112,7 @@ mod verif_c18_state {
         one_op(3, 0);
     }
 
-    // @harness id=C18 tier=thorough timeout=3000 mem=28 checks=rust
+    // @harness id=C18 tier=deep timeout=3000 mem=28 checks=rust
     // @bounds BarState suspend whose draw number 0 fails with an I/O error; pos/len over u64; then a healthy forced draw: no panic, position / length / finished / message exactly as without the failure, the following call works and paints
     #[kani::proof]
     #[kani::unwind(6)]
@@ -121,7 +121,7 @@ mod verif_c18_state {
         one_op(4, 0);
     }
 
-    // @harness id=C18 tier=thorough timeout=3000 mem=28 checks=rust
+    // @harness id=C18 tier=deep timeout=3000 mem=28 checks=rust
     // @bounds BarState suspend whose draw number 1 fails with an I/O error; pos/len over u64; then a healthy forced draw: no panic, position / length / finished / message exactly as without the failure, the following call works and paints
     #[kani::proof]
     #[kani::unwind(6)]
